@@ -8,6 +8,7 @@ import DimodProofs.EnumPost
 import DimodProofs.Anneal
 import DimodProofs.AnnealDelta
 import DimodProofs.AnnealColor
+import DimodProofs.AnnealSweep
 
 /-! # C07 — samplers and composites report each row's true energy over the right variables
 
@@ -267,6 +268,19 @@ theorem greedy_coloring_total_and_proper (h : List (Label × Rat)) (J : List (La
     (∀ c ∈ colorClasses h J, ∀ u ∈ c.2, ∀ w ∈ c.2, w ∉ nbrs J u) ∧
     (∀ v w, w ∈ nbrs J v ↔ v ∈ nbrs J w) :=
   ⟨colorClasses_total h J hh hJ, colorClasses_proper h J hh hJ, fun v w => nbrs_symm J v w⟩
+
+/-- **inside a sweep the acceptance test uses the true energy change**: when the colour class of `v` is reached (state
+    `sp`: the earlier classes of `greedy_coloring` processed from the sweep's initial state `sp0`, whatever the draws and β),
+    `energy_diff_h[v]` — computed once at the start of the sweep — plus `energy_diff_J[v]` — computed from `sp` — is exactly
+    `ising_energy(sp with v flipped) − ising_energy(sp)`: the spin of `v` has not been touched yet because `v` lies in no
+    earlier class -/
+theorem sa_sweep_test_is_true_delta (h : List (Label × Rat)) (J : List (Label × Label × Rat)) (hh : (h.map (·.1)).Nodup)
+    (hJ : SimpleJ J) (pre post : List (Nat × List Label)) (c : Nat × List Label)
+    (hc : colorClasses h J = pre ++ c :: post) (beta : Option Rat) (draw : Label → Rat) (sp0 : List (Label × Rat))
+    (v : Label) (hv : v ∈ c.2) :
+    let sp := pre.foldl (fun sp c => classStep J beta (diffH h sp0) draw sp c.2) sp0
+    diffH h sp0 v + diffJ J sp v = isingE h J (flipSpin (dictGet sp) v) - isingE h J (dictGet sp) :=
+  sweep_test_is_true_delta h J hh hJ pre post c hc beta draw sp0 v hv
 
 /-- **SimulatedAnnealingSampler.sample**, whatever the draws: one row per read; every row is over exactly the
     problem's variables, every value lies in the domain of the problem's vartype, and the reported energy is the
